@@ -71,6 +71,38 @@ PROPS = {
                         "encoding/json round trip of the sync record modelled as identity (json.Marshal/Unmarshal stub)",
                         "the shipped fork table with mainnet heights is not instantiated (27k rows between forks); the code is uniform in the heights"],
     },
+    "C01": {
+        "asserts": ["C01.", "uncaught-panic"],
+        "harnesses": [
+            {"id": "supply-order", "func": "VerifSupply", "pkg": CONV, "pkgname": "conversions", "load": ["./node/conversions"],
+             "params": {"quick": {"maxreq": 2, "order": 1}, "thorough": {"maxreq": 3, "order": 1}}, "must_cover": ["fits", "limited"]},
+            {"id": "staking-order", "func": "VerifSnapshot", "pkg": NODE, "pkgname": "node", "load": ["./node"],
+             "params": {"quick": {"both": 2, "extras": 0, "assets": 1, "order": 1, "positive": 1, "permute_budget": 1, "fixrates": 1},
+                        "thorough": {"both": 3, "extras": 0, "assets": 1, "order": 1, "positive": 1, "permute_budget": 1, "fixrates": 1}},
+             "must_cover": ["paid", "capped", "uncapped"], "replay_mode": "order", "native_repeat": 24, "max_witness_replays": 3},
+        ],
+        "wall": {"quick": 400, "thorough": 3000},
+        "bounds": {"quick": "order oracle = any permutation of one map iteration or one unstable sort per run (deviation budget 1); supply set with <=2 requests; SnapshotPayouts with 2 eligible stakers (1 asset, concrete rates, symbolic balances incl. exact ties)",
+                   "thorough": "3 requests / 3 stakers"},
+        "assumptions": ["map iteration order and unstable-sort order are the only process-dependent inputs modelled; goroutine scheduling in multiFetch and tie handling inside the grader dependency are outside (DESIGN §9)",
+                        "SQLite row order of SELECT without ORDER BY is a function of table content (row ids)"],
+    },
+    "C14": {
+        "asserts": ["C14.", "uncaught-panic"],
+        "harnesses": [
+            {"id": "snapshot-join", "func": "VerifSnapshot", "pkg": NODE, "pkgname": "node", "load": ["./node"],
+             "params": {"quick": {"both": 2, "extras": 1, "assets": 1}, "thorough": {"both": 2, "extras": 1, "assets": 2}},
+             "must_cover": ["paid", "capped", "uncapped"], "max_witness_replays": 4},
+            {"id": "snapshot-alloc", "func": "VerifSnapshot", "pkg": NODE, "pkgname": "node", "load": ["./node"],
+             "params": {"quick": {"both": 3, "extras": 0, "assets": 1, "positive": 1, "fixrates": 1}, "thorough": {"both": 3, "extras": 0, "assets": 1}},
+             "must_cover": ["paid", "capped", "uncapped"], "max_witness_replays": 4},
+        ],
+        "wall": {"quick": 400, "thorough": 3000},
+        "bounds": {"quick": "SnapshotPayouts at the first snapshot heights >= 2.0 and >= 2.0.2: (a) 2 addresses in both snapshots + 1 only-new + 1 only-old, 1 non-PEG asset, symbolic balances in both snapshots, symbolic rates incl. 0; (b) 3 eligible stakers, concrete rates",
+                   "thorough": "(a) with 2 assets, (b) with symbolic rates"},
+        "assumptions": ["USD value of one holding fits int64 and stakes fit uint64 (DESIGN §8 preconditions)", "balances < 2^62",
+                        "trigger condition (height % 144, snapshot taken before balance changes) is SyncBlock glue: see C15/C02 glue harness"],
+    },
     "C13": {
         "asserts": ["C13.", "uncaught-panic"],
         "harnesses": [
